@@ -271,6 +271,9 @@ var c16Calls = []struct {
 	}},
 	// a program with a deep operand stack and deep nesting, and the statistics of a shallow one
 	{"Interpret(deep)", func(st *c16State) string { return impl.Interpret(c16SrcDeep).Summary() }},
+	{"Interpret(empty blocks), result written to", func(st *c16State) string {
+		return interpretPoison("def e1 {}\ndef e2 \"n\" {}\ndef f { def e3 {}; x = 1 }\nbind e1 -> struct")
+	}},
 	{"Interpret(B,stats)", func(st *c16State) string { return impl.Interpret(c16SrcB, bcl.OptStats(true)).Summary() }},
 	// a second shared Prog whose code fills most of a 4 KiB page
 	{"Execute(pMid)+Dump", func(st *c16State) string {
@@ -316,6 +319,15 @@ const (
 )
 
 // interpretKeep interprets src and retains the live blocks and binding for later inspection.
+// interpretPoison interprets src, renders the result and then writes into every map of it (the caller owns
+// what it got): later calls must not see those writes.
+func interpretPoison(src string) string {
+	r := impl.Interpret(src)
+	s := r.Summary()
+	impl.Poison(r.Blocks, r.Binding)
+	return s
+}
+
 func interpretKeep(st *c16State, src string) string {
 	var out, log bytes.Buffer
 	bl, bi, err := bcl.Interpret([]byte(src), bcl.OptOutput(&out), bcl.OptLogger(&log))
@@ -505,13 +517,13 @@ func init() {
 		Level: "model_checking",
 		Rule: "(a) every map iteration order (explored exhaustively through the map-order choice point of the rewritten package) of every range-over-map executed by Bind, for the binding x target space of C15 and for Unmarshal of programs whose keys collide on one field, hold several faulty fields, or hold several named inner blocks: target and error text must be identical for all orders; " +
 			"(b) every goroutine schedule with <=B preemptions (quick 1, thorough 2) of Parse, ParseFile (3 chunks) and Interpret on corpus inputs (valid, several diagnostics, lexical failure): dump bytes, diagnostics, output, blocks, binding identical on all schedules; " +
-			"(c) every history of <=L calls (quick 3, thorough 4) over a 21-call alphabet (ParseFile with a data+error read, a Prog re-loaded in place from its own dump and executed, a second shared Prog with ~3 kB of code executed and dumped, another mid-size compilation, Parse of 3 inputs, Interpret, Execute/Dump of one shared Prog, LoadProg+Execute, Unmarshal good/bad, InterpretFile, Interpret with all options, a deep-stack/deep-nesting program, statistics of a shallow program and of the shared Prog): each call's result equals its result as the first call of a fresh state, and Dump(p) is unchanged by Execute(p); histories that start in a fresh process (each of three same-named struct types bound first) must give the same Bind outcome table; " +
+			"(c) every history of <=L calls (quick 3, thorough 4) over a 22-call alphabet (a result with empty blocks whose maps the caller then writes to, ParseFile with a data+error read, a Prog re-loaded in place from its own dump and executed, a second shared Prog with ~3 kB of code executed and dumped, another mid-size compilation, Parse of 3 inputs, Interpret, Execute/Dump of one shared Prog, LoadProg+Execute, Unmarshal good/bad, InterpretFile, Interpret with all options, a deep-stack/deep-nesting program, statistics of a shallow program and of the shared Prog): each call's result equals its result as the first call of a fresh state, and Dump(p) is unchanged by Execute(p); histories that start in a fresh process (each of three same-named struct types bound first) must give the same Bind outcome table; " +
 			"(d) supplementary (sampling): a digest over all first-call results from fresh processes with GOMAXPROCS 1/2/16 (different hash seeds) must be identical.",
 		Subs:           []*fw.Sub{subC16Map, subC16Unm, subC16Sched, subC16Hist, subC16Fresh},
 		BudgetQuick:    100,
 		BudgetThorough: 1500,
 		Assumptions: []string{"hash seeds are observable only through map iteration order and CPU counts only through scheduling; both are enumerated instead of sampled",
-			"histories are limited to the 21-call alphabet"},
+			"histories are limited to the 22-call alphabet"},
 		Run: func(c *fw.Ctx) {
 			for first := range c15RecTargets {
 				c.Do(subC16Fresh, &c16FreshCase{First: first})
